@@ -1,6 +1,303 @@
-import Log4rsModel.Rolling.Model
+import Log4rsModel.Rolling.LemmasRoller
+import Log4rsModel.Rolling.LemmasLock
+/-
+C17 — On-start-up trigger rolls at most once, on the first record, if big enough.
+Model: `Rolling/Model.lean` with `onStartupTrigger minSize` (state = "the `Once` has run";
+pre-process). `std::sync::Once` is assumed to run its closure exactly once; the concurrent clause
+uses the coarse lock machine of `Rolling/Lock.lean` (the appender's mutex spans the whole append).
+-/
 namespace Log4rs.Rolling
+open Log4rs.Roller
 
-theorem C17_placeholder : True := trivial
+def startupCfg (path : Path) (appendMode : Bool) (minSize : Nat) (roll : RollFn) : Cfg Bool :=
+  { path, appendMode, trig := onStartupTrigger minSize, roll }
+
+def isRoll : Option Out → Bool
+  | some out => out.rolled.isSome
+  | none => false
+
+/-- number of operations of a history in which the roller was invoked -/
+def rolls (outs : List (Option Out)) : Nat := (outs.filter isRoll).length
+
+def isRestart : Op → Bool
+  | .restart => true
+  | _ => false
+
+def restarts (ops : List Op) : Nat := (ops.filter isRestart).length
+
+/-- no append since the appender was built (scanning the history from the start) -/
+def fresh (ops : List Op) : Bool :=
+  ops.foldl (fun b op => match op with | .append _ _ => false | .restart => true | .tick _ => b) true
+
+/-- one append under the on-start-up trigger -/
+theorem startup_append (path : Path) (am : Bool) (m : Nat) (roll : RollFn) (s : St Bool) (r : Rec)
+    (fault : Nat → Bool) (hwf : WF (startupCfg path am m roll) s) :
+    (append (startupCfg path am m roll) s r fault).2.tst = true ∧
+    (s.tst = true → (append (startupCfg path am m roll) s r fault).1.rolled = none) ∧
+    (s.tst = false → ((append (startupCfg path am m roll) s r fault).1.rolled.isSome ↔
+        (openView (startupCfg path am m roll) s).length ≥ m)) := by
+  obtain ⟨_, ht, _, hno, _, hyes⟩ := append_pre_spec (startupCfg path am m roll) s r fault hwf rfl _ _
+    (append (startupCfg path am m roll) s r fault).1 (append (startupCfg path am m roll) s r fault).2 rfl rfl rfl
+  have key : ∀ L, ((startupCfg path am m roll).trig.fire s.tst L s.now) =
+      if s.tst then (.no, true) else (if L ≥ m then .yes else .no, true) := by
+    intro L; simp [startupCfg, onStartupTrigger]
+  refine ⟨?_, ?_, ?_⟩
+  · rw [ht, key]; cases s.tst <;> simp
+  · intro hs
+    have hf : ((startupCfg path am m roll).trig.fire s.tst (openView (startupCfg path am m roll) s).length s.now).1 = .no := by
+      rw [key, hs]; rfl
+    exact (hno hf).2.1
+  · intro hs
+    by_cases hge : (openView (startupCfg path am m roll) s).length ≥ m
+    · have hf : ((startupCfg path am m roll).trig.fire s.tst (openView (startupCfg path am m roll) s).length s.now).1 = .yes := by
+        rw [key, hs]; simp [hge]
+      obtain ⟨d1, _, _, h⟩ := hyes hf
+      rcases h with ⟨_, _, _, hr, _⟩ | ⟨_, _, _, hr, _⟩ <;> simp [hr, hge]
+    · have hf : ((startupCfg path am m roll).trig.fire s.tst (openView (startupCfg path am m roll) s).length s.now).1 = .no := by
+        rw [key, hs]; simp [hge]
+      simp [(hno hf).2.1, hge]
+
+theorem startup_applyOp_tst (path : Path) (am : Bool) (m : Nat) (roll : RollFn) (s : St Bool) (op : Op)
+    (hwf : WF (startupCfg path am m roll) s) :
+    (applyOp (startupCfg path am m roll) s op).2.tst =
+      match op with | .append _ _ => true | .restart => false | .tick _ => s.tst := by
+  cases op with
+  | append r f => exact (startup_append path am m roll s r (faultFn f) hwf).1
+  | restart =>
+    simp only [applyOp, restart, build]
+    exact (getWriter_spec (startupCfg path am m roll) _ (Or.inl rfl)).2.2.2.1
+  | tick dt => rfl
+
+theorem rolls_bound (path : Path) (am : Bool) (m : Nat) (roll : RollFn) (ops : List Op) (s : St Bool)
+    (hwf : WF (startupCfg path am m roll) s) :
+    rolls (run (startupCfg path am m roll) s ops).1 ≤ (if s.tst then 0 else 1) + restarts ops := by
+  induction ops generalizing s with
+  | nil => simp [run, rolls]
+  | cons op ops ih =>
+    have hwf' := WF_applyOp (startupCfg path am m roll) s op hwf
+    have ih' := ih _ hwf'
+    have htst := startup_applyOp_tst path am m roll s op hwf
+    have hr : rolls (run (startupCfg path am m roll) s (op :: ops)).1 =
+        (if isRoll (applyOp (startupCfg path am m roll) s op).1 then 1 else 0) +
+          rolls (run (startupCfg path am m roll) (applyOp (startupCfg path am m roll) s op).2 ops).1 := by
+      simp only [run, rolls, List.filter_cons]
+      split <;> simp <;> omega
+    rw [hr]
+    cases op with
+    | append r f =>
+      have hs := startup_append path am m roll s r (faultFn f) hwf
+      simp only [htst, if_true] at ih'
+      have hres : restarts (Op.append r f :: ops) = restarts ops := by simp [restarts, isRestart]
+      rw [hres]
+      cases hst : s.tst with
+      | true =>
+        have : isRoll (applyOp (startupCfg path am m roll) s (.append r f)).1 = false := by
+          simp [applyOp, isRoll, hs.2.1 hst]
+        simp only [this]
+        simp only [Bool.false_eq_true, if_false, if_true]
+        omega
+      | false =>
+        simp only [Bool.false_eq_true, if_false]
+        split <;> omega
+    | restart =>
+      have : isRoll (applyOp (startupCfg path am m roll) s .restart).1 = false := rfl
+      have hres : restarts (Op.restart :: ops) = restarts ops + 1 := by simp [restarts, isRestart, List.filter_cons]
+      rw [this, hres]
+      simp only [htst] at ih'
+      simp only [Bool.false_eq_true, if_false] at ih' ⊢
+      split <;> omega
+    | tick dt =>
+      have : isRoll (applyOp (startupCfg path am m roll) s (.tick dt)).1 = false := rfl
+      have hres : restarts (Op.tick dt :: ops) = restarts ops := by simp [restarts, isRestart]
+      rw [this, hres]
+      simp only [htst] at ih'
+      simpa using ih'
+
+/-- In the lifetime of one appender — any history of appends (any record, any injected roller
+fault) and clock ticks — the on-start-up trigger requests at most one rotation; with restarts, at
+most one per appender built. -/
+theorem C17_at_most_one_roll (path : Path) (am : Bool) (m : Nat) (roll : RollFn) (d : Disk) (now : Nat) (ops : List Op) :
+    rolls (run (startupCfg path am m roll) (init (startupCfg path am m roll) d false now) ops).1 ≤ 1 + restarts ops := by
+  have h := rolls_bound path am m roll ops _ (WF_init (startupCfg path am m roll) d false now)
+  have ht : (init (startupCfg path am m roll) d false now).tst = false :=
+    (getWriter_spec (startupCfg path am m roll) _ (Or.inl rfl)).2.2.2.1
+  simpa [ht] using h
+
+theorem startup_tst_run (path : Path) (am : Bool) (m : Nat) (roll : RollFn) (ops : List Op) (s : St Bool)
+    (hwf : WF (startupCfg path am m roll) s) (b : Bool) (hb : s.tst = !b) :
+    (run (startupCfg path am m roll) s ops).2.tst =
+      !(ops.foldl (fun b op => match op with | .append _ _ => false | .restart => true | .tick _ => b) b) := by
+  induction ops generalizing s b with
+  | nil => simpa [run] using hb
+  | cons op ops ih =>
+    have hwf' := WF_applyOp (startupCfg path am m roll) s op hwf
+    have htst := startup_applyOp_tst path am m roll s op hwf
+    simp only [run, List.foldl_cons]
+    apply ih _ hwf'
+    rw [htst]
+    cases op <;> simp [hb]
+
+/-- A rotation is requested only while handling the first record after start-up: if the roller is
+invoked by an append that follows the history `ops`, then no append has happened since the
+appender was built (`fresh ops`). -/
+theorem C17_only_first (path : Path) (am : Bool) (m : Nat) (roll : RollFn) (d : Disk) (now : Nat) (ops : List Op)
+    (r : Rec) (fault : Nat → Bool) :
+    let s := (run (startupCfg path am m roll) (init (startupCfg path am m roll) d false now) ops).2
+    (append (startupCfg path am m roll) s r fault).1.rolled.isSome → fresh ops = true := by
+  intro s hroll
+  have hwf0 := WF_init (startupCfg path am m roll) d false now
+  have hwf : WF (startupCfg path am m roll) s := run_invariant _ (fun s op h => WF_applyOp _ s op h) ops _ hwf0
+  have ht0 : (init (startupCfg path am m roll) d false now).tst = false :=
+    (getWriter_spec (startupCfg path am m roll) _ (Or.inl rfl)).2.2.2.1
+  have ht := startup_tst_run path am m roll ops _ hwf0 true (by simp [ht0])
+  have hs := startup_append path am m roll s r fault hwf
+  cases hf : fresh ops with
+  | true => rfl
+  | false =>
+    have : s.tst = true := by
+      show (run _ _ ops).2.tst = true
+      rw [ht]
+      simp only [fresh] at hf
+      simp [hf]
+    rw [hs.2.1 this] at hroll
+    simp at hroll
+
+/-- The first record rolls iff the log file that exists at that moment has at least `min_size`
+bytes (`min_size = 0` and an empty file included). At the first append of a new appender that file
+is what open left: the pre-existing content in append mode, nothing in truncate mode. -/
+theorem C17_iff_big_enough (path : Path) (am : Bool) (m : Nat) (roll : RollFn) (d : Disk) (now : Nat)
+    (r : Rec) (fault : Nat → Bool) :
+    let cfg := startupCfg path am m roll
+    ((append cfg (init cfg d false now) r fault).1.rolled.isSome ↔
+      (if am then fileOf cfg d else []).length ≥ m) := by
+  intro cfg
+  have hwf := WF_init cfg d false now
+  have ht0 : (init cfg d false now).tst = false := (getWriter_spec cfg _ (Or.inl rfl)).2.2.2.1
+  have ho : Opened cfg (init cfg d false now) (if am then fileOf cfg d else []) := by
+    have h := (getWriter_spec cfg { disk := d, writer := none, tst := cfg.trig.reinit false now, now := now } (Or.inl rfl)).1
+    simpa [openView, init, build, cfg, startupCfg] using h
+  have hov : openView cfg (init cfg d false now) = if am then fileOf cfg d else [] := by
+    obtain ⟨w, hw, _, hg, _⟩ := ho
+    simp [openView, hw, fileOf_of_get hg]
+  have := (startup_append path am m roll (init cfg d false now) r fault hwf).2.2 ht0
+  rw [hov] at this
+  exact this
+
+/-- The same for the first append after any history that ends in a fresh appender (for instance
+after a restart): the decision looks at the file as the new appender opened it. -/
+theorem C17_iff_big_enough_any (path : Path) (am : Bool) (m : Nat) (roll : RollFn) (s : St Bool)
+    (r : Rec) (fault : Nat → Bool) (hwf : WF (startupCfg path am m roll) s) (hfresh : s.tst = false) :
+    ((append (startupCfg path am m roll) s r fault).1.rolled.isSome ↔
+      (openView (startupCfg path am m roll) s).length ≥ m) :=
+  (startup_append path am m roll s r fault hwf).2.2 hfresh
+
+/-- When the first record rolls (and the roller succeeds): the content that was in the log file
+becomes the newest archive — `arch` after = (`arch` before ++ [old content]) minus whole oldest
+files — and the record starts a fresh file: the active file is exactly the encoded record. For any
+roller satisfying `RollContract` (proved for the delete roller here and for the fixed-window model
+in `C05`). -/
+theorem C17_content_placement (path : Path) (am : Bool) (m : Nat) (roll : RollFn) (arch : Disk → List Bytes)
+    (hc : RollContract roll path arch) (s : St Bool) (r : Rec) (fault : Nat → Bool)
+    (hwf : WF (startupCfg path am m roll) s) (hfresh : s.tst = false)
+    (hbig : (openView (startupCfg path am m roll) s).length ≥ m)
+    (hok : (append (startupCfg path am m roll) s r fault).1.res = .ok) :
+    let s' := (append (startupCfg path am m roll) s r fault).2
+    s'.disk.get? path = some (encBytes r) ∧
+    ∃ j, arch s'.disk = (arch s.disk ++ [openView (startupCfg path am m roll) s]).drop j := by
+  intro s'
+  obtain ⟨_, _, _, _, _, hyes⟩ := append_pre_spec (startupCfg path am m roll) s r fault hwf rfl _ _
+    (append (startupCfg path am m roll) s r fault).1 (append (startupCfg path am m roll) s r fault).2 rfl rfl rfl
+  have key : ((startupCfg path am m roll).trig.fire s.tst (openView (startupCfg path am m roll) s).length s.now).1 = .yes := by
+    simp [startupCfg, onStartupTrigger, hfresh]
+    simp only [startupCfg] at hbig
+    exact hbig
+  obtain ⟨d1, hg1, hse1, h⟩ := hyes key
+  rcases h with ⟨x, hx, _, _, ho, hse⟩ | ⟨e, _, hr, _⟩
+  · have hroll : roll path fault d1 = (.ok x, (roll path fault d1).2) := by
+      have : (roll path fault d1).1 = .ok x := hx
+      rw [← this]
+    obtain ⟨hgone, j, harch⟩ := hc.ok fault d1 x _ _ hroll hg1
+    have hfile : (if (startupCfg path am m roll).appendMode then
+        fileOf (startupCfg path am m roll) ((startupCfg path am m roll).roll (startupCfg path am m roll).path fault d1).2
+        else []) = [] := by
+      have : fileOf (startupCfg path am m roll) (roll path fault d1).2 = [] := by
+        simp [fileOf, startupCfg, hgone]
+      split
+      · exact this
+      · rfl
+    rw [hfile] at ho
+    obtain ⟨w, _, _, hg, _⟩ := ho
+    refine ⟨hg, j, ?_⟩
+    have h1 : arch s'.disk = arch (roll path fault d1).2 := hc.frame _ _ hse
+    have h2 : arch d1 = arch s.disk := hc.frame _ _ hse1
+    rw [h1, harch, h2]
+  · rw [hr] at hok
+    cases hok
+
+/-- Simultaneous first appends: in every state the lock machine can reach from `progs` (one list
+of records per thread; any scheduler), the appender's state is the sequential execution of the
+committed appends in commit order, the commit order is a merge of what each thread has completed —
+hence (`C17_at_most_one_roll`) at most one rotation happened, it was requested by the first
+committed append, and every record was written after it. -/
+theorem C17_concurrent_first (path : Path) (am : Bool) (m : Nat) (roll : RollFn) (d : Disk) (now : Nat)
+    (progs : List (List Rec)) (sched : List Nat) :
+    let cfg := startupCfg path am m roll
+    let body : Rec → (List (Option Out) × St Bool) → (List (Option Out) × St Bool) :=
+      fun r acc => (acc.1 ++ [some (append cfg acc.2 r (fun _ => false)).1], (append cfg acc.2 r (fun _ => false)).2)
+    let st := lrun body (LState.init ([], init cfg d false now) progs) sched
+    let order := st.log.map (·.2)
+    st.shared = (order.foldl (fun acc r => body r acc) ([], init cfg d false now)) ∧
+    (∀ i t, st.threads[i]? = some t → (st.log.filter (fun e => e.1 == i)).map (·.2) = t.done ∧
+        ∃ p, progs[i]? = some p ∧ t.done <+: p) ∧
+    st.shared = run cfg (init cfg d false now) (order.map (fun r => Op.append r none)) ∧
+    rolls st.shared.1 ≤ 1 := by
+  intro cfg body st order
+  have inv : LInv body ([], init cfg d false now) progs st := (LInv.init body _ progs).run sched
+  have hseq : ∀ (rs : List Rec) (acc : List (Option Out) × St Bool),
+      rs.foldl (fun acc r => body r acc) acc =
+        (acc.1 ++ (run cfg acc.2 (rs.map (fun r => Op.append r none))).1,
+         (run cfg acc.2 (rs.map (fun r => Op.append r none))).2) := by
+    intro rs
+    induction rs with
+    | nil => intro acc; simp [run]
+    | cons r rs ih =>
+      intro acc
+      simp only [List.foldl_cons, List.map_cons, run, applyOp]
+      rw [ih]
+      have hf : faultFn none = fun _ => false := by funext k; simp [faultFn]
+      simp [body, hf]
+  have hshared : st.shared = run cfg (init cfg d false now) (order.map (fun r => Op.append r none)) := by
+    rw [inv.shared, hseq]
+    simp [order]
+  refine ⟨inv.shared, ?_, hshared, ?_⟩
+  · intro i t ht
+    obtain ⟨hl, p, hp1, hp2⟩ := inv.threads i t ht
+    exact ⟨hl, p, hp1, ⟨t.todo, hp2⟩⟩
+  · rw [hshared]
+    have := C17_at_most_one_roll path am m roll d now (order.map (fun r => Op.append r none))
+    have hz : restarts (order.map (fun r => Op.append r none)) = 0 := by
+      simp [restarts, isRestart, List.filter_eq_nil_iff]
+    simpa [hz, cfg] using this
+
+/-! ### non-vacuity (tests on samples) -/
+
+private def demoPath : Path := ['a']
+
+/-- min_size 3, a 3-byte file: the first record rolls, the second does not -/
+example :
+    let cfg := startupCfg demoPath true 3 (fun p f d => deleteRoll p f d)
+    let s0 := init cfg (Disk.empty.set demoPath [1, 2, 3]) false 0
+    let a1 := append cfg s0 [[9]] (fun _ => false)
+    a1.1.rolled = some true ∧ a1.2.disk.get? demoPath = some [9] ∧
+      (append cfg a1.2 [[8]] (fun _ => false)).1.rolled = none := by
+  decide +kernel
+
+/-- min_size 3, a 2-byte file: no rotation, the record is appended -/
+example :
+    let cfg := startupCfg demoPath true 3 (fun p f d => deleteRoll p f d)
+    let s0 := init cfg (Disk.empty.set demoPath [1, 2]) false 0
+    (append cfg s0 [[9]] (fun _ => false)).1.rolled = none ∧
+      (append cfg s0 [[9]] (fun _ => false)).2.disk.get? demoPath = some [1, 2, 9] := by
+  decide +kernel
 
 end Log4rs.Rolling
